@@ -19,6 +19,10 @@
 //!   instr forward|receive|blindedForward|blindedReceive <values…>  → <payload bytes>
 //!        real: the same hop payloads; op = the instruction VALUES in decimal (scid, amounts, expiries, secret, total, …);
 //!        model = HopInstr.encode (generated constructors + generated value encodings: HighZeroBytesDroppedBigSize, …)
+//!   fwdfail <intro|inside|none> <ss> reason <code> <data>  → pkt <packet> <attr> | malformed <code> <sha>
+//!        real: channelmanager's get_htlc_forward_failure (hook) at the failing / converting node of a blinded path
+//!   faildecodeb <num_blinded_hops> <u> <n> <show hop> <ss>* <pkt>  → within <k> | attributed …
+//!        real: the sender's process_onion_failure on a path with a REAL blinded tail (BlindedPaymentPath::new / one_hop)
 //!   customnew <n> (<type> <hex>)*  → ok … | err          real: public RecipientCustomTlvs::new
 //!   payloaddec <payload> <bp 0|1> <fwd|recv|na> <show invreq>  → kind=… amt=… custom=…
 //!        real: what that hop's node learns from peel_payment_onion (PendingHTLCInfo) on the real onion
@@ -510,6 +514,69 @@ fn blinded_section(ctx: &Ctx, rng: &mut Rng, rec: &mut Rec, thorough: bool, scal
 				_ => { rec.oracle_fail(format!("unexpected routing at hop {} of {}", j, what)); break; },
 			}
 		}
+		// ---- FAILURES on this path: before, at and inside the blinded section -------------------------------------
+		// real: get_htlc_forward_failure (hook) at the failing / converting node, HTLCFailReason relays, the sender's
+		// process_onion_failure with the real blinded tail; model: generated getHtlcForwardFailure / decodeFailureB
+		let iob: u16 = 0xC018;
+		let mut dkeys = String::new(); for x in &ss { dkeys.push_str(&format!(" {}", hex(x))); }
+		let ahex = |a: &Option<lightning::ln::onion_utils::AttributionData>| { use lightning::util::ser::Writeable; a.as_ref().map(|x| hex(&x.encode())).unwrap_or("none".into()) };
+		for _ in 0..2 {
+			let f = rng.below(n as u64) as usize;                 // the hop at which the HTLC fails
+			let (code, data): (u16, Vec<u8>) = if rng.chance(1, 2) { (*rng.pick(&[0x2002u16, 0x6002, 0x2019]), vec![]) } else { (0x400f, { let mut v = final_value.to_be_bytes().to_vec(); v.extend(&height.to_be_bytes()); v }) };
+			// what the failing node sends back
+			let role = if f < u - 1 { None } else if f == u - 1 { Some(true) } else { Some(false) };
+			let mode = match role { None => "none", Some(true) => "intro", Some(false) => "inside" };
+			let first = match guarded(AssertUnwindSafe(|| vh::htlc_forward_failure(role, None, code, &data, 0, &ss[f]))) { Ok(x) => x, Err(p) => { rec.oracle_fail(format!("get_htlc_forward_failure panicked at hop {} ({}): {}", f, what, p)); continue; } };
+			let fop = format!("fwdfail {} {} reason {} {}", mode, hex(&ss[f]), code, hex(&data));
+			let (mut d, mut attr) = match first {
+				Err((c, sha)) => {
+					rec.case(&fop, &format!("malformed {} {}", c, hex(&sha)), "blindfail:inside-malformed", true);
+					if role != Some(false) { rec.oracle_fail(format!("hop {} ({}) of {} answered with update_fail_malformed_htlc", f, mode, what)); }
+					if c != iob || sha != [0u8; 32] { rec.oracle_fail(format!("blinded hop {} of {} answered malformed with code {:#x} / sha {}", f, what, c, hex(&sha))); }
+					// blinded nodes between f and the introduction node pass the malformed failure on as malformed; the
+					// introduction node turns it into an onion error packet of its own
+					let conv = match guarded(AssertUnwindSafe(|| vh::htlc_forward_failure(Some(true), None, c, &sha, 0, &ss[u - 1]))) { Ok(Ok(x)) => x, _ => { rec.oracle_fail(format!("introduction node of {} did not produce an update_fail_htlc", what)); continue; } };
+					rec.case(&format!("fwdfail intro {} reason {} {}", hex(&ss[u - 1]), c, hex(&sha)), &format!("pkt {} {}", hex(&conv.0), ahex(&conv.1)), "blindfail:intro-converts", true);
+					conv
+				},
+				Ok(x) => {
+					rec.case(&fop, &format!("pkt {} {}", hex(&x.0), ahex(&x.1)), if role.is_some() { "blindfail:intro-own" } else { "blindfail:before" }, true);
+					if role == Some(false) { rec.oracle_fail(format!("blinded hop {} of {} answered with an onion error packet", f, what)); }
+					x
+				},
+			};
+			let origin = f.min(u - 1);                               // the node whose packet travels back
+			if role.is_some() {
+				// impl oracle: whatever happened, the introduction node's packet is THE invalid_onion_blinding packet
+				let (ed, ea) = vh::build_failure_packet(&ss[u - 1], iob, &[0u8; 32], 0);
+				if d != ed || ahex(&attr) != ahex(&ea) { rec.oracle_fail(format!("introduction node's failure packet depends on what happened inside the blinded path ({})", what)); }
+			}
+			for j in (0..origin).rev() { let (d2, a2) = vh::relay_failure_packet(&ss[j], d, attr, rng.below(1000) as u32); d = d2; attr = a2; }
+			let corrupted = rng.chance(1, 5);
+			if corrupted { let bit = rng.below(8 * d.len() as u64) as usize; flip(&mut d, bit); }   // corrupted on the way back
+			let dec = vh::decode_onion_failure(&ctx.secp, &NullLogger, &path, &session, d.clone(), None);
+			let real = if dec.failed_within_blinded_path { format!("within {}", u - 1) } else {
+				match (&dec.onion_error_code, &dec.onion_error_data) {
+					(Some(cd), Some(dt)) => format!("attributed {} {} {}", dec.short_channel_id.and_then(|sc| path.hops.iter().position(|h| h.short_channel_id == sc)).map(|x| x.to_string()).unwrap_or("?".into()), cd, hex(dt)),
+					_ => match dec.short_channel_id { None => "unattributable".into(), Some(sc) => format!("unreadable {}", path.hops.iter().position(|h| h.short_channel_id == sc).map(|x| x as i64).unwrap_or(-1)) },
+				}
+			};
+			// BADONION codes name no channel of the failing node itself: the hop index is then not visible in the real result
+			let dop = format!("faildecodeb {} {} {} {}{}", b + 1, u, n, (dec.short_channel_id.is_some() || dec.onion_error_code.is_none() || dec.failed_within_blinded_path) as u8, dkeys);
+			// impl oracle: never a node at / after the introduction node of a multi-hop blinded path; failures at or inside the
+			// blinded section are reported as "within the blinded path" with invalid_onion_blinding
+			if b >= 1 {
+				if let Some(sc) = dec.short_channel_id { if let Some(pos) = path.hops.iter().position(|h| h.short_channel_id == sc) { if pos + 1 >= u && !(pos + 1 == u && f + 1 < u) { rec.oracle_fail(format!("failure at hop {} of {} blamed on channel index {} (introduction node is hop {})", f, what, pos, u - 1)); } } }
+				if !corrupted && role.is_some() && (!dec.failed_within_blinded_path || dec.onion_error_code != Some(iob) || dec.onion_error_data.as_deref() != Some(&[0u8; 32][..]) || dec.short_channel_id.is_some()) {
+					rec.oracle_fail(format!("failure at hop {} ({}) of {}: sender reported within_blinded={} code={:?} scid={:?}", f, mode, what, dec.failed_within_blinded_path, dec.onion_error_code, dec.short_channel_id));
+				}
+			}
+			// model comparison: node failures name the failing hop's own channel, so the index is comparable; update / perm
+			// failures of a hop BEFORE the introduction node name the next channel (real-side oracle above only)
+			let comparable = dec.failed_within_blinded_path || code & 0x2000 != 0 || dec.onion_error_code.is_none();
+			if comparable { rec.case(&format!("{} {}", dop, hex(&d)), &real, &format!("blindfail:decode:{}{}{}", mode, if b == 0 { ":one-hop" } else { "" }, if corrupted { ":corrupt" } else { "" }), true); }
+			else { *rec.classes.entry("real-only:blindfail-not-index-comparable".into()).or_insert(0) += 1; }
+		}
 	}
 }
 
@@ -815,7 +882,7 @@ fn main() {
 			}
 		}
 	}
-	rec.notes.insert("rule".into(), format!("PRNG routes of 1..N hops over {} node keys (N = longest suffix that fits {} bytes for the drawn payload sizes, also N+1), amounts in 6 magnitude classes, recipient fields (secret/metadata/custom TLVs/keysend) of varying size; per route: build (byte-exact), every hop peels, sampled single-bit corruptions, failures at random hops relayed back; plus the boundary section: failure-data lengths 0/1/253..257 (pad-to-256 threshold) and the lengths making the update_fail_htlc LN_MAX_MSG_LEN-2..+2 bytes with attribution data / from a failing node without it (thresholds taken from the real codec), each relayed by 1..N hops on a 6-hop route (every failing position), a short route and one longer than MAX_HOPS, compared on packet length, attribution data kept per relay, real vs modelled wire length, SHA-256 of packet and attribution data, decoded (hop, code, data, hold times); plus hop payload encoders: every payload of half of the routes and of all blinded routes as `payload` ops (what was asked vs the real bytes) and as `instr` ops (the instruction VALUES in decimal; the model applies the generated value encodings), RecipientCustomTlvs::new on drawn custom TLV sets (types below / between / above 77_777 and 5482373484, odd and even, reserved / low / repeated ones), payments to blinded recipients (real BlindedPaymentPath::new / one_hop, 0..3 blinded forwarding nodes, keysend, invoice_request) peeled by every node with the decoded instructions compared (`payloaddec`); every op line distinct; max hops seen {}", MAX_NODES, L, max_hops_seen));
+	rec.notes.insert("rule".into(), format!("PRNG routes of 1..N hops over {} node keys (N = longest suffix that fits {} bytes for the drawn payload sizes, also N+1), amounts in 6 magnitude classes, recipient fields (secret/metadata/custom TLVs/keysend) of varying size; per route: build (byte-exact), every hop peels, sampled single-bit corruptions, failures at random hops relayed back; plus the boundary section: failure-data lengths 0/1/253..257 (pad-to-256 threshold) and the lengths making the update_fail_htlc LN_MAX_MSG_LEN-2..+2 bytes with attribution data / from a failing node without it (thresholds taken from the real codec), each relayed by 1..N hops on a 6-hop route (every failing position), a short route and one longer than MAX_HOPS, compared on packet length, attribution data kept per relay, real vs modelled wire length, SHA-256 of packet and attribution data, decoded (hop, code, data, hold times); plus hop payload encoders: every payload of half of the routes and of all blinded routes as `payload` ops (what was asked vs the real bytes) and as `instr` ops (the instruction VALUES in decimal; the model applies the generated value encodings), RecipientCustomTlvs::new on drawn custom TLV sets (types below / between / above 77_777 and 5482373484, odd and even, reserved / low / repeated ones), payments to blinded recipients (real BlindedPaymentPath::new / one_hop, 0..3 blinded forwarding nodes, keysend, invoice_request) peeled by every node with the decoded instructions compared (`payloaddec`); failures before / at / inside the blinded section of these routes (get_htlc_forward_failure at the failing and at the introduction node, relays, the sender's decode with the real blinded tail, 1 in 5 corrupted on the way back); every op line distinct; max hops seen {}", MAX_NODES, L, max_hops_seen));
 	rec.notes.insert("trusted".into(), "ECDH / ephemeral key blinding stay on the Rust side (shared secrets are inputs to the model); the real serialized length of update_fail_htlc comes from the real codec (parse + re-encode round trip)".into());
 	rec.finish();
 }
